@@ -355,10 +355,35 @@ Theorem C09_bar_decay_limit : forall M len t0 ops eps, 0 <= M -> 0 < eps -> no_w
 Proof. exact bar_decay_limit. Qed.
 Print Assumptions C09_bar_decay_limit.
 
-(** ** 5. Forgetting *)
+(** ** 5. Forgetting
+    [C09_reset_forgets], [C09_rewind_forgets_partial] and [C09_rewind_is_restart] are DEFINITIONAL:
+    [est_reset] overwrites both averages and both instants ([bar_reset_est] also the baseline), so
+    the state after a restart does not mention the old estimator and the three statements hold by
+    unfolding.  What ties them to the code is the bit-exact correspondence and the fresh-twin
+    oracle.  [C09_forgets_observationally] is the statement about observations for ARBITRARY
+    pasts; [C09_restart_is_fresh] and [C09_translation_invariant] carry the proof content. *)
+(** two estimators with arbitrary pasts (any histories h1, h2 from any creation instants), the
+    same restart x at the same instant (reset_eta / reset_elapsed / reset, or a record below both
+    baselines = a recorded backwards seek), the same suffix of calls: the states coincide, hence
+    every later steps_per_second, and per_sec / eta / duration / elapsed of two bars that agree
+    on position, length, status and start.  Every arithmetic (also binary64). *)
+Theorem C09_forgets_observationally : forall (A : arith) h1 h2 t1 t2 x sfx,
+  let e1 := est_runA A h1 (est_new A t1) in
+  let e2 := est_runA A h2 (est_new A t2) in
+  is_restart x e1 -> is_restart x e2 ->
+  est_runA A (x :: sfx) e1 = est_runA A (x :: sfx) e2 /\
+  (forall q, est_sps A (est_runA A (x :: sfx) e1) q = est_sps A (est_runA A (x :: sfx) e2) q) /\
+  (forall (b1 b2 : bar (T A)) q,
+     b_est b1 = est_runA A (x :: sfx) e1 -> b_est b2 = est_runA A (x :: sfx) e2 ->
+     b_pos b1 = b_pos b2 -> b_len b1 = b_len b2 -> b_done b1 = b_done b2 ->
+     b_started b1 = b_started b2 ->
+     bar_query A b1 q = bar_query A b2 q).
+Proof. exact forgets_observationally. Qed.
+Print Assumptions C09_forgets_observationally.
+
 (** reset_eta / reset_elapsed / reset: two bars that differ only in what their estimators have
     learned are EQUAL afterwards, hence so is every later observation of every continuation.
-    Every arithmetic (also binary64). *)
+    Every arithmetic (also binary64).  Definitional (see above). *)
 Theorem C09_reset_forgets : forall (A : arith) o now (b1 b2 : bar (T A)) rest,
   o = ResetEta \/ o = ResetElapsed \/ o = ResetAll ->
   same_but_est A b1 b2 ->
@@ -591,3 +616,22 @@ Example C09_nonvacuous_interleaved_tick : forall len,
   bar_points tick_wit_ops 0 (bar_new Rar len 0) = [(15, 15000000000); (30, 30000000000)]%N /\
   Forall (pt_on_line 1 0) (bar_points tick_wit_ops 0 (bar_new Rar len 0)).
 Proof. exact tick_wit_points. Qed.
+
+(** hypotheses of C09_bar_steady_line with THROTTLED calls: 1 step / us, 30 set_position calls
+    1 us apart (the position limiter lets the burst of 10 through and refuses the next 20), one
+    at 1 ms, a tick 0.5 us later: 31 listed points, all on pos = 10^6 t, only 12 estimator events
+    (10 + 1 samples and the tick) *)
+Example C09_nonvacuous_throttled_line : forall len,
+  no_wrap thr_ops 0 /\ on_line 1000000 0 0 0 /\
+  Forall (pt_on_line 1000000 0) (bar_points thr_ops 0 (bar_new Rar len 0)) /\
+  length (bar_points thr_ops 0 (bar_new Rar len 0)) = 31%nat /\
+  length (bar_evs thr_ops 0 (bar_new Rar len 0)) = 12%nat.
+Proof. exact thr_example. Qed.
+
+(** the decay condition with a STRICT margin (deceleration 100/s then 1/s): smoothed 9.9 <
+    double_smoothed 18, hypotheses of C09_decay_when_d_ge_s *)
+Example C09_nonvacuous_decay_condition_strict :
+  hist_ok decel_evs (est_new Rar 0) /\
+  est_run decel_evs (est_new Rar 0) = (mkEst (99 / 10) 18 1515%N 30000000000%N 0%N : est R) /\
+  99 / 10 < 18.
+Proof. exact decel_state. Qed.
